@@ -489,6 +489,76 @@ pub fn run(ctx: &Ctx) {
             }
         }
     }
+    // sources and sinks of other file types: symlinked input, FIFO as -o, /dev/stdout as -o, /dev/stdin as FILE
+    {
+        let dir = w.wd.path.join("ftypes");
+        let _ = std::fs::create_dir_all(&dir);
+        std::fs::write(dir.join("kr.txt"), &kr_ab).unwrap();
+        let pt = &pts[2].1;
+        let f = refspec::encode_key_file(&a.sk, &a.pk, &b.pk, &rng.arr32(), &rng.arr32(), pt, &refspec::natural_chunking(pt.len(), 65536)).unwrap();
+        std::fs::write(dir.join("real.ktl"), &f).unwrap();
+        let _ = std::os::unix::fs::symlink("real.ktl", dir.join("link.ktl"));
+        let base = ["-t", b.name.as_str(), "-k", "kr.txt", "--env-pass"];
+        // (1) symlinked input, captured stdout
+        let mut args = vec!["decrypt", "link.ktl"];
+        args.extend_from_slice(&base);
+        let o = Cmd::new(&dir, &args).pass(&b.password).run();
+        ctx.eval();
+        if o.exit == Exit::Code(0) && &o.stdout == pt {
+            ctx.seen("file types: symlinked input ok");
+            ctx.distinct("ftype|symlink-in");
+        } else {
+            ctx.violation("C12:outcome-depends-on-wiring:symlinked-input", json!({"exit": o.exit.describe(), "stderr": o.stderr_s(), "output_len": o.stdout.len()}));
+        }
+        // (2) -o /dev/stdout
+        let mut args = vec!["decrypt", "real.ktl", "-o", "/dev/stdout"];
+        args.extend_from_slice(&base);
+        let o = Cmd::new(&dir, &args).pass(&b.password).run();
+        ctx.eval();
+        if o.exit == Exit::Code(0) && &o.stdout == pt {
+            ctx.seen("file types: -o /dev/stdout ok");
+            ctx.distinct("ftype|dev-stdout");
+        } else {
+            ctx.violation("C12:outcome-depends-on-wiring:output-to-dev-stdout", json!({"exit": o.exit.describe(), "stderr": o.stderr_s(), "output_len": o.stdout.len()}));
+        }
+        // (3) /dev/stdin as the FILE argument
+        let mut args = vec!["decrypt", "/dev/stdin"];
+        args.extend_from_slice(&base);
+        let o = Cmd::new(&dir, &args).pass(&b.password).stdin(Stdin::Bytes(f.clone())).run();
+        ctx.eval();
+        if o.exit == Exit::Code(0) && &o.stdout == pt {
+            ctx.seen("file types: /dev/stdin as FILE ok");
+            ctx.distinct("ftype|dev-stdin");
+        } else {
+            ctx.violation("C12:outcome-depends-on-wiring:input-named-dev-stdin", json!({"exit": o.exit.describe(), "stderr": o.stderr_s(), "output_len": o.stdout.len()}));
+        }
+        // (4) -o a FIFO that a reader drains
+        let fifo = dir.join("out.fifo");
+        let cpath = std::ffi::CString::new(fifo.to_string_lossy().as_bytes()).unwrap();
+        if unsafe { libc::mkfifo(cpath.as_ptr(), 0o600) } == 0 {
+            let fifo2 = fifo.clone();
+            let reader = std::thread::spawn(move || std::fs::read(&fifo2).unwrap_or_default());
+            let mut args = vec!["decrypt", "real.ktl", "-o", "out.fifo"];
+            args.extend_from_slice(&base);
+            let mut c = Cmd::new(&dir, &args).pass(&b.password);
+            c.timeout = std::time::Duration::from_secs(60);
+            let o = c.run();
+            if o.exit == Exit::Timeout {
+                // unblock the reader if the tool never opened the FIFO
+                let _ = std::fs::OpenOptions::new().write(true).open(&fifo);
+            }
+            let got = reader.join().unwrap_or_default();
+            ctx.eval();
+            if o.exit == Exit::Code(0) && &got == pt {
+                ctx.seen("file types: -o FIFO ok");
+                ctx.distinct("ftype|fifo-out");
+            } else if o.exit == Exit::Timeout {
+                ctx.inconclusive("C12: FIFO lane timed out");
+            } else {
+                ctx.violation("C12:outcome-depends-on-wiring:output-to-a-fifo", json!({"exit": o.exit.describe(), "stderr": o.stderr_s(), "output_len": got.len()}));
+            }
+        }
+    }
     // an explicit -k must not be overridden by a stale KESTREL_KEYRING
     {
         let dir = w.wd.path.join("both");
